@@ -236,6 +236,32 @@ def eval_shards(root, files, jobs=16):
     return results, errors
 
 
+def _sha(path, h):
+    try:
+        with open(path, "rb") as f:
+            while True:
+                b = f.read(1 << 20)
+                if not b:
+                    break
+                h.update(b)
+    except OSError:
+        h.update(b"missing:" + path.encode())
+
+
+def suite_cache_key(root, binp, suite, seed, tier, build):
+    import hashlib
+    h = hashlib.sha256()
+    h.update(("%s|%s|%s|%s" % (suite, seed, tier, build)).encode())
+    _sha(binp, h)
+    for d in ("Model", "Corr"):
+        for f in sorted(glob.glob(os.path.join(root, "coq", d, "*.vo"))):
+            h.update(os.path.basename(f).encode())
+            _sha(f, h)
+    for f in sorted(glob.glob(os.path.join(root, "corpus", "e1", "*.txt"))):
+        _sha(f, h)
+    return h.hexdigest()[:32]
+
+
 def run_e1_suite(root, binp, suite, seed, tier, rundir, tag):
     out_dir = os.path.join(rundir, "%s-%s" % (suite, tag))
     if os.path.isdir(out_dir):
@@ -357,6 +383,29 @@ def main(root, argv):
                 if not bins[key]:
                     continue
                 log("[%s] suite %s/%s (%s, seed %d, %s)" % (pid, engine, suite, build, seed, tier))
+                # A suite's outcome is a function of (harness binary built from /repo's current tree,
+                # compiled model, suite, seed, tier): identical inputs are evaluated once per sandbox.
+                ckey = suite_cache_key(root, bins[key], suite, seed, tier, build)
+                cpath = os.path.join(root, ".cache", "suite_cache", ckey + ".json")
+                cached = None
+                if os.environ.get("VERIF_NO_CACHE") != "1" and os.path.exists(cpath):
+                    try:
+                        cached = json.load(open(cpath))
+                    except (OSError, ValueError):
+                        cached = None
+                if cached:
+                    st = cached["stats"]
+                    st["reused_from_cache"] = ckey
+                    suites_stats.append(st)
+                    for d in cached["disagreements"]:
+                        disagreements.append(d)
+                    for o in st.get("oracle_failures", []):
+                        o["suite"] = suite
+                        o["build"] = build
+                        oracle_fail.append(o)
+                    obligations.append(("correspondence suite %s (%s): model = implementation on %d cases" % (suite, build, st.get("evaluations", 0)),
+                                        st.get("disagreements", 0) == 0))
+                    continue
                 runner = P.ENGINE_RUNNERS.get(engine, run_e1_suite)
                 st = runner(root, bins[key], suite, seed, tier, rundir, build)
                 st["build"] = build
@@ -369,13 +418,18 @@ def main(root, argv):
                 for f, e in errs:
                     corr_errors.append("coqc failed on %s: %s" % (os.path.basename(f), e))
                 nd = 0
+                mine = []
                 for f, idxs in res.items():
                     shard = int(re.search(r"_(\d+)\.v$", f).group(1))
                     for ix in idxs:
                         nd += 1
-                        disagreements.append({"suite": suite, "build": build, "shard": shard, "index": ix,
-                                              "case": case_line(st, shard, ix)})
+                        mine.append({"suite": suite, "build": build, "shard": shard, "index": ix,
+                                     "case": case_line(st, shard, ix)})
+                disagreements.extend(mine)
                 st["disagreements"] = nd
+                if not errs:
+                    os.makedirs(os.path.dirname(cpath), exist_ok=True)
+                    json.dump({"stats": st, "disagreements": mine}, open(cpath, "w"))
                 for o in st.get("oracle_failures", []):
                     o["suite"] = suite
                     o["build"] = build
